@@ -41,6 +41,18 @@ pub fn expand(spec: &str) -> Vec<u8> {
         }
         return v;
     }
+    if let Some(r) = spec.strip_prefix("cchain:") {
+        // cchain:<n>:<tail hex> - n well-formed command frames (04 06 05 "READY": a command with no properties), then tail
+        let mut it = r.splitn(2, ':');
+        let n: usize = it.next().unwrap().parse().unwrap();
+        let tail = rc::unhex(it.next().unwrap_or(""));
+        let mut v = Vec::with_capacity(8 * n + tail.len());
+        for _ in 0..n {
+            v.extend_from_slice(&[0x04, 0x06, 0x05, b'R', b'E', b'A', b'D', b'Y']);
+        }
+        v.extend(tail);
+        return v;
+    }
     if let Some(r) = spec.strip_prefix("lbody:") {
         // lbody:<flags hex>:<declared length>:<body bytes actually delivered>
         let mut it = r.splitn(3, ':');
@@ -223,6 +235,9 @@ fn run_child(args: &[&str]) -> ChildOut {
     let exe = std::env::current_exe().expect("current_exe");
     let mut ch = Command::new(exe)
         .args(args)
+        // the socket-level part runs on the stack size of a tokio worker thread
+        .env("VERIF_E3_STACK_KB", "2048")
+        .env("VERIF_E3_LOG_STARTS", "1")
         .stdin(Stdio::null())
         .stdout(Stdio::piped())
         .stderr(Stdio::piped())
@@ -237,9 +252,28 @@ fn run_child(args: &[&str]) -> ChildOut {
         let _ = e.read_to_string(&mut s);
         s
     });
+    // a child that runs away is killed: the parent then sees an abnormal exit (reported, never waited for for ever)
+    let pid = ch.id();
+    let done = std::sync::Arc::new(std::sync::atomic::AtomicBool::new(false));
+    let done2 = done.clone();
+    let killer = std::thread::spawn(move || {
+        let t0 = std::time::Instant::now();
+        while !done2.load(std::sync::atomic::Ordering::Relaxed) {
+            if t0.elapsed() > std::time::Duration::from_secs(2400) {
+                unsafe {
+                    libc::kill(pid as i32, libc::SIGKILL);
+                }
+                eprintln!("MACHINERY: child process {} ran for more than 2400 s and was killed", pid);
+                break;
+            }
+            std::thread::sleep(std::time::Duration::from_millis(50));
+        }
+    });
     let _ = o.read_to_string(&mut so);
     se.push_str(&t.join().unwrap_or_default());
     let status = ch.wait().expect("wait child");
+    done.store(true, std::sync::atomic::Ordering::Relaxed);
+    let _ = killer.join();
     ChildOut {
         status,
         stdout: so,
@@ -414,6 +448,10 @@ fn structured_family(tier: Tier) -> Vec<(String, String)> {
     }
     for n in [1000usize, 20_000] {
         v.push((format!("{} long-form empty MORE frames", n), format!("lchain:{}", n)));
+    }
+    // long runs of WELL-FORMED command frames (ignored by the sockets after the handshake), then an ordinary message
+    for n in [10usize, 1000, 50_000, 400_000] {
+        v.push((format!("{} well-formed command frames in a row, then a message", n), format!("cchain:{}:000158", n)));
     }
     v
 }
@@ -623,13 +661,18 @@ pub fn child_e3(tier_s: &str, specs_path: &str) -> i32 {
         for (stage_set, fam) in [(vec![1u8, 2u8], &specs), (vec![0u8], &greeting_stage_family())] {
             for stage in stage_set {
                 for (_d, spec) in fam.iter() {
+                    // long chains: one execution is expensive (every frame is a step): default schedule only
+                    let long = ["chain:", "lchain:", "cchain:"].iter().any(|p| spec.strip_prefix(p).and_then(|r| r.split(':').next()).and_then(|n| n.parse::<usize>().ok()).map(|n| n >= 3000).unwrap_or(false));
                     for eof in [false, true] {
+                        if long && eof {
+                            continue;
+                        }
                         let spec2 = spec.clone();
                         jobs.push(e3::job(
                             format!("C03/socket/{}/stage{}/{}{}", ty.name(), stage, spec.chars().take(48).collect::<String>(), if eof { "/eof" } else { "" }),
                             json!({"scenario":"socket","type":ty.name(),"stage":stage,"spec":spec,"eof":eof}),
-                            tier.pick(2, 3),
-                            200_000,
+                            if long { 0 } else { tier.pick(2, 3) },
+                            if long { 2 } else { 200_000 },
                             move || socket_scenario(ty, stage, spec2.clone(), eof),
                         ));
                     }
@@ -716,7 +759,7 @@ pub fn run(tier: Tier, replay: Option<String>) -> i32 {
             }
             Err(_) => ck.machinery_error(format!("child for {} printed no result: {:?} / {:?}", spec, out.stdout, out.stderr)),
         }
-        if distinct_outcomes.insert(outcome_sig.clone()) || spec.starts_with("chain") || spec.starts_with("lchain") || desc.starts_with("long frame") {
+        if distinct_outcomes.insert(outcome_sig.clone()) || spec.starts_with("chain") || spec.starts_with("lchain") || spec.starts_with("cchain") || desc.starts_with("long frame") {
             // representatives for the socket-level part: one input per distinct codec-level outcome, plus all chains / hostile lengths
             if !(desc.starts_with("long frame") && !desc.ends_with("0 byte(s)")) {
                 e3_specs.push((desc.clone(), spec.clone()));
@@ -825,15 +868,18 @@ pub fn run(tier: Tier, replay: Option<String>) -> i32 {
         .collect();
     e3_specs.retain(|(_, s)| !aborting.contains(s) && !abort_fams.contains(&s.as_str()));
     // chains: keep the socket-level part affordable
-    e3_specs.retain(|(_, s)| !(s.starts_with("chain:100000") || s.starts_with("lchain:20000")));
+    e3_specs.retain(|(_, s)| !(s.starts_with("chain:100000") || s.starts_with("lchain:20000") || s.starts_with("cchain:400000")));
     let specs_path = tmp.join("e3-specs.json");
     std::fs::write(&specs_path, serde_json::to_string(&e3_specs).unwrap()).unwrap();
     let out = run_child(&["c03-e3", tier.as_str(), specs_path.to_str().unwrap()]);
     if !out.status.success() {
+        // which job was the dying thread running?
+        let dying = out.stderr.lines().find_map(|l| l.strip_prefix("thread '").and_then(|r| r.split('\'').next()).filter(|_| l.contains("overflowed its stack"))).map(|s| s.to_string());
+        let job = dying.as_ref().and_then(|t| out.stderr.lines().rev().find_map(|l| l.strip_prefix(&format!("START {} ", t)).map(|j| j.to_string())));
         ck.finding(
             format!("{}/socket-level", abort_class(&out.stderr)),
-            format!("socket-level sweep: {}; stderr tail: {}", describe_exit(&out.status, &out.stderr), out.stderr.lines().last().unwrap_or("")),
-            json!({"engine":"E3","kind":"sweep"}),
+            format!("socket-level sweep: {}{}; stderr tail: {}", describe_exit(&out.status, &out.stderr), job.as_ref().map(|j| format!(" while running scenario {}", j)).unwrap_or_default(), out.stderr.lines().rev().find(|l| !l.starts_with("START ")).unwrap_or("")),
+            json!({"engine":"E3","kind":"sweep","job":job}),
         );
     } else {
         match serde_json::from_str::<Value>(out.stdout.lines().last().unwrap_or("")) {
